@@ -3,56 +3,82 @@ from __future__ import annotations
 
 import io
 import random
+import time
 import warnings
 
 from harness.common import Ck, coq_bool, coq_list, parse_coq_N_list
-from translate import c01_kvser
+from translate import c01_kvser, c02_tables
 
 MANIFEST = dict(
-    technique='Rocq proof (character-level tokenizer model + Keyvalues.parse token loop + template-interpreting '
-              'serialiser; round trip by induction over trees) + ast template/escape-table translator with '
-              'kernel-checked instance obligations + vm_compute correspondence + round-trip oracle on the implementation',
-    text='Theorems in Props/C01.v: for every write-template configuration accepted by cfg_ok and every escape table '
-         'accepted by esc_ok, for all trees (any depth/width, empty blocks, duplicate names, empty strings, every code '
-         'point; names without line breaks), all whitespace-only indent/start_indent strings and both brace styles, '
-         'parse_kv(serialise(t)) = t with no error (root documents and named nodes), and the token stream of the text '
-         'is the same for any two whitespace-only option sets. The templates (each f-string piece of every file.write in '
-         '_serialise classified literal / variable / raw field / escape_text(field)), the open/close brace definitions of '
-         'serialise, the yields of the deprecated export(), tokenizer.ESCAPES and the ESCAPE_RE exclusions are regenerated '
-         'from the source on every run; cfg_ok/esc_ok and "no store or mutating call on the tree inside the writers" are '
-         'discharged for them in the kernel. The hand-written tokenizer and parser models are compared with '
-         'Keyvalues.serialise (exact text) and Keyvalues.parse (tree or error kind) on generated, mutated and hand-made '
-         'texts; the round trip, tree immutability, indentation independence and the three delivery forms (str, chunk '
-         'list, file object) are searched on the real implementation.',
-    note='Trusted: Coq kernel + vm_compute, translate/c01_kvser.py, the hand models KV/KvLex.v and KV/KvParse.v (tied by '
-         'differential runs only), CPython. Chunked delivery (Tokenizer._next_char over an iterable) is not modelled: '
-         'it is searched, and is the subject of C03. Trees with a nameless node below the root, non-str values, and '
-         'cyclic trees are outside the model. The Cython tokenizer twin cannot be built here and is not covered. '
-         '"Independent of indentation apart from whitespace" is proved as equality of token streams; equality of the '
-         'texts after deleting blanks outside quotes is checked by the search only.',
+    technique='Rocq proof (character-level KV lexer proved equal to the reader-program tokenizer model of C03 under the '
+              'options Keyvalues.parse passes; Keyvalues.parse token loop with its options; template-interpreting models of '
+              'serialise() and of the deprecated export(); round trip by induction over trees; chunk independence '
+              'inherited from the generic reader theorem) + ast translator for write templates, escape tables and the '
+              'decisive tests of parse/_serialise/export with kernel-checked instance obligations + vm_compute '
+              'correspondences (sampled, and exhaustive at the token level) + round-trip oracle on the implementation',
+    text='Theorems in Props/C01.v: for every write-template configuration accepted by cfg_ok (xcfg_ok for export()), every '
+         'escape table accepted by esc_ok and every parser configuration accepted by pcfg_ok, for all trees (any '
+         'depth/width, empty blocks, duplicate names, empty strings, every code point; names without line breaks), all '
+         'whitespace-only indent/start_indent strings and both brace styles, parse(serialise(t)) = t with no error, for '
+         'root documents and named nodes, through serialise() and through export(); the same for every setting of the '
+         'parse options newline_keys / newline_values / single_line (with newline_keys=True for ALL names), and '
+         'single_block=True returns the first node itself; the token stream is the same for any two whitespace-only '
+         'option sets and the text after deleting blanks outside quotes is a function of the tree alone. '
+         'kv_lexer_refines_tokenizer: the KV lexer model yields exactly the tokens and the error of the C03 tokenizer '
+         'model (reader programs over _next_char with push-back) under string_bracket/string_parens/allow_escapes; hence '
+         'parse_any_delivery: parsing any list of chunks (any cuts, empty chunks) or any reader state denoting the text '
+         'equals parsing the concatenation, and kv_roundtrip_any_delivery. Refuted variants with computed witnesses: raw '
+         'block name (pinned _serialise/export), truth-valued root test, a key line-break test wider than LF/CR, line '
+         'breaks in names/values under the options that forbid them, non-whitespace indent. Regenerated from the source '
+         'on every run: every f-string piece of the writers (literal / variable / raw field / escape_text(field)), the '
+         'root tests of _serialise and export, the structure of export(), ESCAPES and the ESCAPE_RE exclusions, the '
+         'character sets of the two "Illegal newline" tests of parse, the emptiness guards of the flag-replacement tests '
+         'and of the single_block return, the Tokenizer(...) options, and a census of stores/mutating calls on the tree '
+         'inside the writers; cfg_ok/xcfg_ok/esc_ok/pcfg_ok/tables_match are discharged for them in the kernel as '
+         'named booleans. The token loop model is compared with Keyvalues.parse on ALL token strings up to length 4 '
+         '(thorough: 5) over a 9-symbol alphabet under all 16 option vectors (scripted tokenizer, checksums), on '
+         'generated/mutated/hand-made texts under random options, and on chunk lists through the reader model; the '
+         'writers models are compared with serialise()/export() text exactly.',
+    note='Trusted: Coq kernel + vm_compute, translate/c01_kvser.py and translate/c02_tables.py, the hand model of the '
+         'token loop KV/KvParse.v (tied by the exhaustive token-level and sampled text-level correspondences), the C03 '
+         'tokenizer model Text/Tokenizer.v (tied by C03\'s exhaustive small-scope correspondence; KV/KvLex.v is no longer '
+         'trusted: it is proved equal to it), CPython. _read_flag is not modelled: its verdicts enter as an arbitrary '
+         'predicate (theorems hold for all of them; correspondences record the real verdicts). allow_escapes=False, '
+         'escape_text(multiline=True) (no KV1 writer uses it), trees with a nameless node below the root, non-str '
+         'values, cyclic trees and the Cython tokenizer twin are outside the model. "Serialisation never changes the '
+         'tree" is a syntactic census (no store / mutating call on tree objects in the writers) plus the identity walk of '
+         'the search, not a semantic theorem. serialise(file) versus the returned string is searched only.',
 )
 
 IMPORTS = ['Coq.Lists.List', 'Coq.NArith.NArith', 'Coq.Bool.Bool', 'SV.KV.KvBase', 'SV.KV.KvLex', 'SV.KV.KvParse',
-           'SV.KV.KvSer', 'SV.KV.KvSym', 'SV.Gen.KVSer_gen']
+           'SV.KV.KvSer', 'SV.KV.KvSym', 'SV.KV.KvExport', 'SV.KV.KvEnum', 'SV.KV.KvFlags', 'SV.Gen.KVSer_gen']
+IMPORTS_REFINE = ['Coq.Lists.List', 'Coq.NArith.NArith', 'Coq.Bool.Bool', 'SV.Text.Str', 'SV.Text.Prog', 'SV.Text.Tokenizer',
+                  'SV.Text.TokGen', 'SV.KV.KvBase', 'SV.KV.KvLex', 'SV.KV.KvParse', 'SV.KV.KvRefine', 'SV.Gen.KVSer_gen']
 PRE = '''Import ListNotations. Open Scope N_scope.
 Fixpoint bad_idx {A} (f : A -> bool) (n : N) (l : list A) : list N :=
   match l with [] => [] | x :: r => (if f x then [] else [n]) ++ bad_idx f (n + 1) r end.
-Definition lexerr_code (e : lexerr) : N := match e with
-  | LFlagNewline => 1 | LFlagNest => 2 | LFlagEof => 3 | LParenNest => 4 | LParenEof => 5 | LCloseBracket => 6
-  | LCloseParen => 7 | LStarComment => 8 | LSingleSlash => 9 | LNoEscape => 10 | LUnterminated => 11
-  | LUnexpectedChar => 12 end.
-Definition perr_code (e : perr) : N := match e with
-  | ELex e => lexerr_code e | EBlockAfterValue => 20 | EBlockRequired => 21 | ENewlineKey => 22
-  | EExpectedNewline => 23 | EMultipleNames => 24 | ETooManyClose => 25 | EUnexpected => 26 | EEofBlock => 27
-  | EEofOpen => 28 | EIndex => 29 end.
-Definition agree (r : pres) (e : list kv + N) : bool :=
-  match r, e with POk d, inl d' => doc_eqb d d' | PErr x, inr c => perr_code x =? c | _, _ => false end.
-Definition flag_tbl (t : list (str * bool)) (s : str) : bool := existsb (fun p => str_eqb (fst p) s && snd p) t.
-Definition parse_case (c : (str * list (str * bool)) * (list kv + N)) : bool :=
-  agree (parse_kv gen_escfg (flag_tbl (snd (fst c))) (fst (fst c))) (snd c).
+(* expected result: inl (inl doc) = root with children, inl (inr k) = single node, inr code = error kind *)
+Definition agree (r : pres) (e : (list kv + kv) + N) : bool :=
+  match r, e with
+  | POk d, inl (inl d') => doc_eqb d d'
+  | PNode k, inl (inr k') => kv_eqb k k'
+  | PErr x, inr c => perr_code x =? c
+  | _, _ => false end.
+(* _read_flag: the flags mapping given to parse, FLAGS_DEFAULT as found at run time (run_defaults, appended below),
+   and the graph of str.casefold on the flag names that occur *)
+Fixpoint assoc_s (k : str) (t : list (str * str)) : option str :=
+  match t with [] => None | (k', v) :: r => if str_eqb k' k then Some v else assoc_s k r end.
+Definition cf_tbl (t : list (str * str)) (s : str) : str := match assoc_s s t with Some x => x | None => s end.
+Definition parse_case (defaults : list (str * bool))
+    (c : ((str * N) * (list (str * bool) * list (str * str))) * ((list kv + kv) + N)) : bool :=
+  agree (parse_kv_opts gen_parsecfg (mkopts (snd (fst (fst c)))) gen_escfg
+           (read_flag (cf_tbl (snd (snd (fst c)))) (fst (snd (fst c))) defaults) (fst (fst (fst c))))
+        (snd c).
 Definition ser_case (c : ((str * bool * str) * list kv) * str) : bool :=
   let '(i, b, s) := fst (fst c) in
   str_eqb (serialise_doc gen_sercfg gen_escfg {| o_indent := i; o_indent_braces := b; o_start := s |} (snd (fst c))) (snd c).
+Definition exp_case (c : list kv * str) : bool := str_eqb (export_doc gen_expcfg gen_escfg (fst c)) (snd c).
+Definition exp_node_case (c : kv * str) : bool := str_eqb (export_node gen_expcfg gen_escfg (fst c)) (snd c).
 Definition ser_node_case (c : ((str * bool * str) * kv) * str) : bool :=
   let '(i, b, s) := fst (fst c) in
   str_eqb (serialise_node gen_sercfg gen_escfg {| o_indent := i; o_indent_braces := b; o_start := s |} (snd (fst c))) (snd c).
@@ -64,7 +90,8 @@ ERR_CODES = [
     ('No open () to close', 7), ('/**/-style comments are not allowed', 8), ('Single slash found', 9),
     ('No character to escape', 10), ('Unterminated string', 11), ('Unexpected character', 12),
     ('Keyvalues cannot have sub-section', 20), ('Block opening ("{") required, but hit EOF', 27),
-    ('Block opening (', 21), ('Illegal newline found in key', 22), ('Expected ', 23),
+    ('Block opening (', 21), ('Illegal newline found in key', 22), ('Illegal newline found in value', 30),
+    ('Expected ', 23),
     ('Cannot have multiple names', 24), ('Too many closing brackets', 25), ('Unexpected ', 26),
     ('File ended unexpectedly', 26), ('End of text reached with remaining open sections', 28),
 ]
@@ -72,7 +99,19 @@ ERR_NAMES = {1: 'flag-newline', 2: 'flag-nest', 3: 'flag-eof', 4: 'paren-nest', 
              7: 'close-paren', 8: 'star-comment', 9: 'single-slash', 10: 'no-escape-char', 11: 'unterminated-string',
              12: 'unexpected-char', 20: 'block-after-value', 21: 'block-required', 22: 'newline-in-key',
              23: 'expected-newline', 24: 'multiple-names', 25: 'too-many-close', 26: 'unexpected-token',
-             27: 'eof-block-required', 28: 'eof-open-blocks', 29: 'index-error', 99: 'other'}
+             27: 'eof-block-required', 28: 'eof-open-blocks', 29: 'index-error', 30: 'newline-in-value', 99: 'other'}
+
+# Keyvalues.parse options covered by the model, as bits of the number handed to Coq (mkopts in PRE)
+OPT_NAMES = ['newline_keys', 'newline_values', 'single_line', 'single_block']
+DEFAULT_OPT_BITS = 2      # newline_values=True, the others False
+
+
+def opt_bits(o: dict) -> int:
+    return sum(1 << i for i, k in enumerate(OPT_NAMES) if o.get(k, k == 'newline_values'))
+
+
+def bits_opts(b: int) -> dict:
+    return {k: bool(b >> i & 1) for i, k in enumerate(OPT_NAMES)}
 
 # ------------------------------------------------------------------------------------------------ trees
 # A tree is ('L', name, value) or ('B', name, [children]); a document is a list of trees.
@@ -188,21 +227,26 @@ def coq_doc(doc) -> str:
 
 
 # ------------------------------------------------------------------------------------------------ implementation runs
-def impl_parse(data, flag_log: dict | None = None):
-    """Keyvalues.parse -> ('ok', doc) | ('err', code, message)"""
+def impl_parse(data, flag_log: dict | None = None, popts: dict | None = None, flags: dict | None = None):
+    """Keyvalues.parse -> ('ok', doc) | ('node', tree) (single_block) | ('err', code, message)"""
     from srctools import keyvalues as kvmod
     from srctools.tokenizer import TokenSyntaxError
     orig = kvmod._read_flag
     if flag_log is not None:
         def spy(flags, val):
             r = orig(flags, val)
-            flag_log[val] = r
+            flag_log[val] = r          # the flag texts that were looked at (and the verdicts, for the chunked tie)
             return r
         kvmod._read_flag = spy
     try:
         with warnings.catch_warnings():
             warnings.simplefilter('ignore')
-            root = kvmod.Keyvalues.parse(data)
+            kw = dict(popts or {})
+            if flags is not None:
+                kw['flags'] = flags
+            root = kvmod.Keyvalues.parse(data, **kw)
+            if root._real_name is not None:
+                return ('node', snapshot(root))
             return ('ok', snapshot(root)[2])
     except TokenSyntaxError as e:
         for pre, code in ERR_CODES:
@@ -229,9 +273,22 @@ def impl_serialise(doc, opts, named: bool = False) -> str:
         return kv.serialise(**opts)
 
 
+# ------------------------------------------------------------------------------------------------ parallel model evaluation
+def eval_jobs(ck: Ck, jobs: list) -> list:
+    """Evaluate [(name, expr)] with ck.coq_eval in parallel coqc processes (distinct scratch names); the order of the
+    results is the order of the jobs, so nothing depends on timing."""
+    from concurrent.futures import ThreadPoolExecutor
+    if not jobs:
+        return []
+    with ThreadPoolExecutor(max_workers=min(10, len(jobs))) as ex:
+        futs = [ex.submit(ck.coq_eval, IMPORTS, exprs if isinstance(exprs, list) else [exprs], f'{name}_{k}', 900, PRE)
+                for k, (name, exprs) in enumerate(jobs)]
+        return [f.result() for f in futs]
+
+
 # ------------------------------------------------------------------------------------------------ correspondence: serialise
-def corr_serialise(ck: Ck) -> None:
-    n = ck.budget(400, 2000)
+def corr_serialise(ck: Ck):
+    n = ck.budget(240, 2000)
     cases = []
     for i in range(n):
         rng = ck.rng
@@ -241,7 +298,10 @@ def corr_serialise(ck: Ck) -> None:
         if named:
             doc = doc[:1]
         text = impl_serialise(doc, opts, named)
-        cases.append((doc, opts, named, text))
+        with warnings.catch_warnings():
+            warnings.simplefilter('ignore')
+            xtext = ''.join((build(doc[0]) if named else build_root(doc)).export())
+        cases.append((doc, opts, named, text, xtext))
         ck.count('serialise_correspondence_cases')
         nodes, depth, special = tree_stats(doc)
         ck.hist('ser_corr_nodes', min(nodes, 64) // 8 * 8)
@@ -249,26 +309,44 @@ def corr_serialise(ck: Ck) -> None:
         if special and nodes >= 1:
             ck.seen(('ser', repr(doc), repr(opts), named))
     ck.sample({'serialise_case': {'doc': cases[0][0], 'opts': cases[0][1], 'impl_text': cases[0][3]}})
-    bad: list[int] = []
+    jobs, parts = [], []
     for named in (False, True):
         sub = [(k, c) for k, c in enumerate(cases) if c[2] == named]
-        for lo in range(0, len(sub), 250):
-            part = sub[lo:lo + 250]
+        for lo in range(0, len(sub), 150):
+            part = sub[lo:lo + 150]
             lit = coq_list(
                 f'((({coq_chars(o["indent"])}, {coq_bool(o["indent_braces"])}, {coq_chars(o["start_indent"])}), '
-                f'{coq_tree(d[0]) if named else coq_doc(d)}), {coq_chars(t)})' for _, (d, o, _n, t) in part)
+                f'{coq_tree(d[0]) if named else coq_doc(d)}), {coq_chars(t)})' for _, (d, o, _n, t, _x) in part)
             fn = 'ser_node_case' if named else 'ser_case'
-            vals = ck.coq_eval(IMPORTS, [f'bad_idx {fn} 0 {lit}'], name='ser', preamble=PRE)
-            if vals is None:
-                ck.obligation('correspondence:serialise', False, 'model could not be evaluated')
-                ck.tie_broken.append('correspondence serialise: model evaluation failed')
-                return
-            bad += [part[i][0] for i in parse_coq_N_list(vals[0])]
+            xlit = coq_list(f'({coq_tree(d[0]) if named else coq_doc(d)}, {coq_chars(x)})' for _, (d, o, _n, _t, x) in part)
+            jobs.append(('ser', [f'bad_idx {fn} 0 {lit}', f'bad_idx {"exp_node_case" if named else "exp_case"} 0 {xlit}']))
+            parts.append(part)
+    return jobs, lambda results: finish_serialise(ck, cases, parts, results)
+
+
+def finish_serialise(ck: Ck, cases, parts, results) -> None:
+    bad: list[int] = []
+    xbad: list[int] = []
+    for part, vals in zip(parts, results):
+        if vals is None:
+            for which in ('serialise', 'export'):
+                ck.obligation(f'correspondence:{which}', False, 'model could not be evaluated')
+                ck.tie_broken.append(f'correspondence {which}: model evaluation failed')
+            return
+        bad.extend(part[i][0] for i in parse_coq_N_list(vals[0]))
+        xbad.extend(part[i][0] for i in parse_coq_N_list(vals[1]))
+    ck.obligation('correspondence:export', not xbad,
+                  f'{len(cases)} trees, export template interpreter (vm_compute) vs "".join(Keyvalues.export()), exact '
+                  f'text: {len(xbad)} disagreements')
+    if xbad:
+        d, o, nm, t, x = min((cases[i] for i in xbad), key=lambda c: len(c[4]))
+        ck.tie_broken.append('correspondence export (KV/KvExport.v over Gen/KVSer_gen.v vs Keyvalues.export)')
+        ck.extra['export_disagreement'] = {'doc': d, 'named': nm, 'impl_text': x}
     ck.obligation('correspondence:serialise', not bad,
                   f'{len(cases)} trees x options, template interpreter (vm_compute) vs Keyvalues.serialise, exact text: '
                   f'{len(bad)} disagreements')
     if bad:
-        d, o, nm, t = min((cases[i] for i in bad), key=lambda c: len(c[3]))
+        d, o, nm, t, _x = min((cases[i] for i in bad), key=lambda c: len(c[3]))
         ck.tie_broken.append('correspondence serialise (KV/KvSer.v over Gen/KVSer_gen.v vs Keyvalues.serialise)')
         ck.extra['serialise_disagreement'] = {'doc': d, 'opts': o, 'named': nm, 'impl_text': t}
 
@@ -289,11 +367,25 @@ CORPUS_TEXT = [
     '"a" [!x360]\n\n\n{\n}\n', '"a" [win32]\n"b" "c"\n', '"a" [x360]\n"b" "c"\n', '"x" "1"\n"a" "b" [$WIN32]\n"a" "c" [$X360]\n',
     '"a"\n{\n"b" "1"\n}\n"a" [win32]\n{\n}\n"a" [!win32]\n{\n}\n', '"a" "b" [x360]\n"c" [win32]\n{\n}\n',
     '"a" "b" //x\r\n"c" "d"', '"a" "b\\', '"a" "b\\\r\nc"\n', '"\\\n" "x"\n', '"a" "\r"\n', '"a" "\n\r"\n',
+    '"a" "b" [WIN32]\n', '"a" "b" [\xdf]\n"c" "d" [!\xdf]\n', '"a" "b" [!!x360]\n', '"a" "b" []\n', '"a" "b" [!]\n',
+    '"a" [X360]\n{\n}\n"b" "c" [!X360]\n', '"a" "b" [$osx]\n"a" "c" [$OSX]\n',
 ]
 MUT_ALPHABET = list('""""\\\\{}{}[]()/ \t\n\n\r#=,;\':+!ab$') + ['\ufeff', '\U0001f600']
-SOUP = ['"a"', '"b c"', 'x', 'y1', '{', '}', '\n', '\n', ' ', '\t', '[win32]', '[!x360]', '[$OSX]', '[zz]', '// c', '\r\n', '\r',
+SOUP = ['"a"', '"b c"', 'x', 'y1', '{', '}', '\n', '\n', ' ', '\t', '[win32]', '[!x360]', '[$OSX]', '[zz]', '[ZZ]', '[!WIN32]', '[\xdf]', '[!!zz]', '// c', '\r\n', '\r',
         '"\\n"', '"\\\\"', '"a\\"b"', '""', '/', '(p)', '#d', '=', ',', '"', '\\', '[', ']', '\ufeff', ':', '"k" "v"\n',
         '"blk"\n{\n', '}\n']
+
+
+# values for Keyvalues.parse(flags=...): keys are looked up after case-folding the [flag] text, so an upper-case key never
+# matches; values go through bool()
+USER_FLAGS = [{}, {}, {}, {'win32': False}, {'x360': True}, {'zz': True}, {'X360': True, 'ZZ': True}, {'osx': True, 'linux': False},
+              {'!x360': True}, {'ss': True}, {'$osx': 1, 'win32': 0}, {'': True}]
+
+
+def run_defaults() -> str:
+    """FLAGS_DEFAULT as the module holds it now (platform dependent entries are evaluated at import)."""
+    from srctools import keyvalues as kvmod
+    return '[' + '; '.join(f'({coq_chars(k)}, {coq_bool(bool(v))})' for k, v in kvmod.FLAGS_DEFAULT.items()) + ']'
 
 
 def gen_parse_text(rng: random.Random) -> tuple[str, str]:
@@ -327,60 +419,277 @@ def gen_parse_text(rng: random.Random) -> tuple[str, str]:
     return 'soup', ''.join(rng.choice(SOUP) for _ in range(rng.choice([2, 4, 8, 16, 30])))
 
 
-def corr_parse(ck: Ck) -> None:
-    n = ck.budget(1500, 6000)
+def corr_parse(ck: Ck):
+    n = ck.budget(800, 6000)
     cases = []
     for i in range(n):
         if i < len(CORPUS_TEXT):
             kind, text = 'corpus', CORPUS_TEXT[i]
+        elif i < 2 * len(CORPUS_TEXT):
+            pass
         else:
             kind, text = gen_parse_text(ck.rng)
         if len(text) > 1500:
             text = text[:1500]
         flags: dict = {}
-        res = impl_parse(text, flags)
-        cases.append((text, flags, res))
+        uflags = {} if i < len(CORPUS_TEXT) else ck.rng.choice(USER_FLAGS)
+        # options: the corpus first with the defaults, then again under every option vector in turn; generated
+        # texts half with the defaults, half with a random vector
+        if i < len(CORPUS_TEXT):
+            bits = DEFAULT_OPT_BITS
+        elif i < 2 * len(CORPUS_TEXT):
+            kind, text, bits = 'corpus-options', CORPUS_TEXT[i - len(CORPUS_TEXT)], ck.rng.randrange(16)
+        else:
+            bits = DEFAULT_OPT_BITS if ck.rng.random() < 0.5 else ck.rng.randrange(16)
+        res = impl_parse(text, flags, bits_opts(bits), uflags)
+        # graph of str.casefold on the flag names met (after the optional '!')
+        cf = {}
+        for fv in flags:
+            nm = fv[1:] if fv[:1] == '!' else fv
+            cf[nm] = nm.casefold()
+        cases.append((text, (uflags, cf), res, bits))
         ck.count('parse_correspondence_cases')
+        ck.hist('parse_corr_user_flags', ','.join(sorted(uflags)) or 'none')
         ck.hist('parse_corr_kind', kind)
-        ck.hist('parse_corr_outcome', 'ok' if res[0] == 'ok' else ERR_NAMES.get(res[1], str(res[1])))
+        ck.hist('parse_corr_options', '+'.join(k for k, v in bits_opts(bits).items() if v) or 'none')
+        ck.hist('parse_corr_outcome', res[0] if res[0] != 'err' else ERR_NAMES.get(res[1], str(res[1])))
         if len(text) >= 4:
-            ck.seen(('parse', text))
-    ck.sample({'parse_case': {'text': cases[len(CORPUS_TEXT)][0], 'impl': cases[len(CORPUS_TEXT)][2]}})
-    bad: list[int] = []
+            ck.seen(('parse', text, bits))
+    ck.sample({'parse_case': {'text': cases[2 * len(CORPUS_TEXT)][0], 'impl': cases[2 * len(CORPUS_TEXT)][2],
+                              'options': bits_opts(cases[2 * len(CORPUS_TEXT)][3])}})
+    jobs, parts = [], []
     chunk: list[int] = []
     size = 0
 
     def flush():
         nonlocal chunk, size
         if not chunk:
-            return True
+            return
+        def want(r):
+            if r[0] == 'ok':
+                return f'inl (inl {coq_doc(r[1])})'
+            if r[0] == 'node':
+                return f'inl (inr ({coq_tree(r[1])}))'
+            return f'inr {r[1]}'
         lit = coq_list(
-            f'(({coq_chars(cases[k][0])}, [{"; ".join(f"({coq_chars(f)}, {coq_bool(v)})" for f, v in cases[k][1].items())}]), '
-            + (f'inl {coq_doc(cases[k][2][1])}' if cases[k][2][0] == 'ok' else f'inr {cases[k][2][1]}') + ')'
+            f'((({coq_chars(cases[k][0])}, {cases[k][3]}), '
+            f'([{"; ".join(f"({coq_chars(f)}, {coq_bool(bool(v))})" for f, v in cases[k][1][0].items())}], '
+            f'[{"; ".join(f"({coq_chars(a)}, {coq_chars(b)})" for a, b in cases[k][1][1].items())}])), {want(cases[k][2])})'
             for k in chunk)
-        vals = ck.coq_eval(IMPORTS, [f'bad_idx parse_case 0 {lit}'], name='parse', preamble=PRE)
-        if vals is None:
-            ck.obligation('correspondence:parse', False, 'model could not be evaluated')
-            ck.tie_broken.append('correspondence parse: model evaluation failed')
-            return False
-        bad.extend(chunk[i] for i in parse_coq_N_list(vals[0]))
+        jobs.append(('parse', f'bad_idx (parse_case {run_defaults()}) 0 {lit}'))
+        parts.append(chunk)
         chunk, size = [], 0
-        return True
     for k, c in enumerate(cases):
         chunk.append(k)
         size += len(c[0]) + 20
-        if len(chunk) >= 400 or size > 60000:
-            if not flush():
-                return
-    if not flush():
-        return
+        if len(chunk) >= 250 or size > 30000:
+            flush()
+    flush()
+    return jobs, lambda results: finish_parse(ck, cases, parts, results)
+
+
+def finish_parse(ck: Ck, cases, parts, results) -> None:
+    bad: list[int] = []
+    for part, vals in zip(parts, results):
+        if vals is None:
+            ck.obligation('correspondence:parse', False, 'model could not be evaluated')
+            ck.tie_broken.append('correspondence parse: model evaluation failed')
+            return
+        bad.extend(part[i] for i in parse_coq_N_list(vals[0]))
     ck.obligation('correspondence:parse', not bad,
                   f'{len(cases)} texts, tokenizer+parser model (vm_compute) vs Keyvalues.parse, tree or error kind: '
                   f'{len(bad)} disagreements')
     if bad:
-        t, f, r = min((cases[i] for i in bad), key=lambda c: len(c[0]))
+        t, f, r, b = min((cases[i] for i in bad), key=lambda c: len(c[0]))
         ck.tie_broken.append('correspondence parse (KV/KvLex.v + KV/KvParse.v vs Tokenizer + Keyvalues.parse)')
-        ck.extra['parse_disagreement'] = {'text': t, 'flags': f, 'impl': r, 'n': len(bad)}
+        ck.extra['parse_disagreement'] = {'text': t, 'flags_param': f[0], 'casefold_graph': f[1], 'impl': r,
+                                          'options': bits_opts(b), 'n': len(bad)}
+
+
+# ------------------------------------------------------------------------------------------------ chunked delivery, model side
+PRE_CHUNK = '''Import ListNotations. Open Scope N_scope.
+Fixpoint bad_idx {A} (f : A -> bool) (n : N) (l : list A) : list N :=
+  match l with [] => [] | x :: r => (if f x then [] else [n]) ++ bad_idx f (n + 1) r end.
+Definition agree (r : pres) (e : (list kv + kv) + N) : bool :=
+  match r, e with
+  | POk d, inl (inl d') => doc_eqb d d'
+  | PNode k, inl (inr k') => kv_eqb k k'
+  | PErr x, inr c => perr_code x =? c
+  | _, _ => false end.
+Definition flag_tbl (t : list (KvBase.str * bool)) (s : KvBase.str) : bool := existsb (fun p => str_eqb (fst p) s && snd p) t.
+(* the reader-program tokenizer of C03 over the chunk list, with the generated tables, then the token loop *)
+Definition chunk_case (c : ((list (list N) * N) * list (KvBase.str * bool)) * ((list kv + kv) + N)) : bool :=
+  let cs := fst (fst (fst c)) in
+  let n := (length (concat cs) + 2)%nat in
+  agree (parse_kv_reader gen_parsecfg (mkopts (snd (fst (fst c)))) gen_tables (flag_tbl (snd (fst c))) n n (chk_of_chunks cs))
+        (snd c).
+'''
+
+
+def corr_chunked(ck: Ck) -> None:
+    """Keyvalues.parse(list of chunks) against parse_kv_reader (the C03 tokenizer model over the reader state of the real
+    class + the token loop), on serialisations, mutations and corpus texts cut at random / hazardous positions."""
+    n = ck.budget(150, 600)
+    cases = []
+    for i in range(n):
+        rng = ck.rng
+        kind, text = ('corpus', CORPUS_TEXT[i]) if i < len(CORPUS_TEXT) else gen_parse_text(rng)
+        text = text[:400]
+        forms = list(chunkings(rng, text))
+        name, chunks = forms[i % len(forms)]
+        bits = DEFAULT_OPT_BITS if rng.random() < 0.6 else rng.randrange(16)
+        flags: dict = {}
+        res = impl_parse(list(chunks), flags, bits_opts(bits))
+        cases.append((chunks, bits, flags, res))
+        ck.count('chunked_correspondence_cases')
+        ck.hist('chunked_corr_form', name)
+        if len(text) >= 4 and len(chunks) >= 2:
+            ck.seen(('chunked', tuple(chunks), bits))
+
+    def want(r):
+        if r[0] == 'ok':
+            return f'inl (inl {coq_doc(r[1])})'
+        if r[0] == 'node':
+            return f'inl (inr ({coq_tree(r[1])}))'
+        return f'inr {r[1]}'
+    lit = coq_list(
+        f'((([{"; ".join(coq_chars(ch) for ch in c[0])}], {c[1]}), '
+        f'[{"; ".join(f"({coq_chars(f)}, {coq_bool(v)})" for f, v in c[2].items())}]), {want(c[3])})' for c in cases)
+    vals = ck.coq_eval(IMPORTS_REFINE + ['SV.KV.KvEnum'], [f'bad_idx chunk_case 0 {lit}'], name='chunked', preamble=PRE_CHUNK)
+    if vals is None:
+        ck.obligation('correspondence:parse-chunked', False, 'model could not be evaluated')
+        ck.tie_broken.append('correspondence parse-chunked: model evaluation failed')
+        return
+    bad = parse_coq_N_list(vals[0])
+    ck.obligation('correspondence:parse-chunked', not bad,
+                  f'{len(cases)} chunk lists, parse_kv_reader over Text/Tokenizer.v + gen_tables (vm_compute) vs '
+                  f'Keyvalues.parse(chunks): {len(bad)} disagreements')
+    if bad:
+        c = min((cases[i] for i in bad), key=lambda c: sum(map(len, c[0])))
+        ck.tie_broken.append('correspondence parse-chunked (Text/Tokenizer.v reader model + KV/KvParse.v vs Keyvalues.parse)')
+        ck.extra['chunked_disagreement'] = {'chunks': c[0], 'options': bits_opts(c[1]), 'flags': c[2], 'impl': c[3]}
+
+
+# ------------------------------------------------------------------------------------------------ exhaustive token-level tie
+M63 = (1 << 63) - 1
+SYM_TOKENS = ['a', 'b', 'a\n', None, None, None, 'on', 'off', None]     # values of the 9 symbols of KV/KvEnum.v sym_tok
+
+
+def hash63(xs) -> int:
+    """hfin (hash_list xs) of KV/KvEnum.v."""
+    h = 1469598103934665603
+    for x in xs:
+        h = (h * 1099511628211 + x + 1) & M63
+    h1 = ((h ^ (h >> 29)) * 0x3F58476D1CE4E5B9) & M63
+    return h1 ^ (h1 >> 32)
+
+
+def enc_tree(t) -> list[int]:
+    if t[0] == 'L':
+        return [1, len(t[1]), *map(ord, t[1]), len(t[2]), *map(ord, t[2])]
+    out = [2, len(t[1]), *map(ord, t[1]), len(t[2])]
+    for c in t[2]:
+        out += enc_tree(c)
+    return out
+
+
+def enc_result(r) -> list[int]:
+    if r[0] == 'ok':
+        out = [1, len(r[1])]
+        for t in r[1]:
+            out += enc_tree(t)
+        return out
+    if r[0] == 'node':
+        return [2, *enc_tree(r[1])]
+    return [3, r[1]]
+
+
+def words(n: int):
+    """Same set as KV/KvEnum.v words sym_alpha n (the checksum is a sum: order does not matter)."""
+    import itertools
+    for k in range(n + 1):
+        yield from itertools.product(range(9), repeat=k)
+
+
+def scripted_parse(word, bits: int, fin: int):
+    """Keyvalues.parse fed by a scripted tokenizer producing the tokens of `word`, then EOF (fin=0) or the
+    tokenizer error 'Unterminated string!' (fin=1)."""
+    from srctools.tokenizer import BaseTokenizer, Token
+    kinds = [Token.STRING, Token.STRING, Token.STRING, Token.NEWLINE, Token.BRACE_OPEN, Token.BRACE_CLOSE,
+             Token.PROP_FLAG, Token.PROP_FLAG, Token.EQUALS]
+    vals = ['a', 'b', 'a\n', '\n', '{', '}', 'on', 'off', '=']
+
+    class Scripted(BaseTokenizer):
+        def __init__(self, w):
+            super().__init__(None, None)
+            self.it = iter(w)
+
+        def _get_token(self):
+            s = next(self.it, None)
+            if s is None:
+                if fin:
+                    raise self.error('Unterminated string!')
+                return Token.EOF, ''
+            return kinds[s], vals[s]
+    return impl_parse(Scripted(word), None, bits_opts(bits), {'on': True})
+
+
+def corr_tokens(ck: Ck) -> None:
+    """Exhaustive small scope at the token level."""
+    # (option bits, ending, max length).  quick: every option vector up to length 3, five vectors (none, defaults,
+    # single_line, single_block, all) up to length 4, a tokenizer error as ending under the defaults and single_line;
+    # thorough: every vector up to length 5.
+    if ck.thorough:
+        shards = [(bits, 0, 5) for bits in range(16)] + [(2, 1, 5), (6, 1, 5)]
+    else:
+        shards = [(bits, 0, 4 if bits in (0, 2, 6, 10, 15) else 3) for bits in range(16)] + [(2, 1, 3), (6, 1, 3)]
+    want = {}
+    outcomes: dict = {}
+    nwords = 0
+    for bits, fin, n in shards:
+        tot = 0
+        for w in words(n):
+            r = scripted_parse(w, bits, fin)
+            tot = (tot + hash63([bits, fin, len(w), *w, *enc_result(r)])) & M63
+            nwords += 1
+            k = r[0] if r[0] != 'err' else ERR_NAMES.get(r[1], str(r[1]))
+            outcomes[k] = outcomes.get(k, 0) + 1
+        want[(bits, fin, n)] = tot
+    ck.count('token_exhaustive_cases', nwords)
+    for k, v in sorted(outcomes.items()):
+        ck.hist('token_exhaustive_outcome', k, v)
+    vals = ck.coq_eval(IMPORTS, [f'tok_shard_hash gen_parsecfg {b} {f} {n}' for b, f, n in shards], name='tokenum', preamble=PRE)
+    if vals is None:
+        ck.obligation('correspondence:parse-token-exhaustive', False, 'model could not be evaluated')
+        ck.tie_broken.append('exhaustive token-level correspondence: model evaluation failed')
+        return
+    import re as _re
+    got = {sh: int(_re.sub(r'%[A-Za-z0-9_]+$', '', v.strip()), 0) for sh, v in zip(shards, vals)}
+    bad = [sh for sh in shards if got[sh] != want[sh]]
+    detail = ''
+    if bad:
+        # locate one disagreement: literal model results for the first bad shard
+        b, f, n = bad[0]
+        lits = ck.coq_eval(IMPORTS, [f'tok_shard_cases gen_parsecfg {b} {f} {n}'], name='tokenum_cases', preamble=PRE)
+        if lits is not None:
+            model = {}
+            for m in _re.finditer(r'\[([0-9; ]*)\]', lits[0][1:-1]):
+                xs = [int(x) for x in m.group(1).split(';') if x.strip()]
+                model[tuple(xs[3:3 + xs[2]])] = xs[3 + xs[2]:]
+            for w in words(n):
+                r = scripted_parse(w, b, f)
+                if model.get(tuple(w)) != enc_result(r):
+                    detail = (f'; first disagreement: options {bits_opts(b)} ending {"error" if f else "EOF"} tokens '
+                              f'{[("STR:" + repr(SYM_TOKENS[x])) if x < 3 else ["NL", "{", "}", "FLAG:on", "FLAG:off", "="][x - 3] for x in w]}'
+                              f' implementation {r} model {model.get(tuple(w))}')
+                    ck.extra['token_disagreement'] = {'options': bits_opts(b), 'ending': f, 'tokens': list(w), 'impl': r,
+                                                      'model_encoded': model.get(tuple(w))}
+                    break
+        ck.tie_broken.append('exhaustive token-level correspondence (KV/KvParse.v vs Keyvalues.parse on a scripted tokenizer)')
+    ck.obligation('correspondence:parse-token-exhaustive', not bad,
+                  f'{nwords} cases = all token strings over 9 symbols up to length {max(s_[2] for s_ in shards)} (every option '
+                  f'vector up to length {min(s_[2] for s_ in shards)}) in {len(shards)} (option vector, ending) shards, prun '
+                  f'(vm_compute) vs Keyvalues.parse on a scripted tokenizer, checksum per shard: {len(bad)} shards differ' + detail)
 
 
 # ------------------------------------------------------------------------------------------------ dynamic tie of the tables
@@ -585,6 +894,36 @@ def shrink_doc(doc, pred):
     return cur
 
 
+def map_strings(doc, fname, fvalue):
+    def go(t):
+        if t[0] == 'L':
+            return ('L', fname(t[1]), fvalue(t[2]))
+        return ('B', fname(t[1]), [go(c) for c in t[2]])
+    return [go(t) for t in doc]
+
+
+def options_expected(doc, po: dict):
+    """What Keyvalues.parse(serialise(doc), **po) must return by theorems kv_roundtrip_options / _single_block."""
+    if po['single_block'] and doc:
+        return ('node', doc[0])
+    return ('ok', doc)
+
+
+def options_fails(doc, po: dict, sopts: dict) -> str:
+    with warnings.catch_warnings():
+        warnings.simplefilter('ignore')
+        text = build_root(doc).serialise(**sopts)
+    got = impl_parse(text, None, po)
+    want = options_expected(doc, po)
+    if got == want:
+        return ''
+    if got[0] == 'err':
+        return 'parse-error:' + ERR_NAMES.get(got[1], str(got[1]))
+    if got[0] != want[0]:
+        return 'node-kind'
+    return where_differs(want[1] if want[0] == 'ok' else [want[1]], got[1] if got[0] == 'ok' else [got[1]]) or 'differs'
+
+
 SEARCH_CORPUS = [
     [('B', 'a"b', [('L', 'x', 'y')])], [('B', 'a\\', [])], [('B', 'a\\n', [('L', 'k', 'v')])], [('B', 'tab\there', [])],
     [('L', 'a"b', 'c"d')], [('L', 'a\\', 'b\\')], [('L', 'k', 'line1\nline2\r\nline3\r')], [('L', '', '')], [('B', '', [])],
@@ -597,7 +936,7 @@ SEARCH_CORPUS = [
 
 
 def search(ck: Ck) -> None:
-    n = ck.budget(4000, 30000)
+    n = ck.budget(2500, 15000)
     found: dict[str, tuple] = {}
     shrinks: dict[str, int] = {}
     shrunk_docs: set = set()
@@ -702,6 +1041,24 @@ def search(ck: Ck) -> None:
                            {'named': True})
                 if snapshot(kv) != doc[0]:
                     report('serialise-mutates-tree', 'the tree differs after serialise()', doc[:1], o2)
+            # non-default parse options (theorems kv_roundtrip_options, kv_roundtrip_single_block*): a random vector;
+            # with newline_keys line breaks are put into names, without newline_values they are taken out of values
+            bits = rng.randrange(16)
+            po = bits_opts(bits)
+            brk = rng.choice(['\n', '\r', '\r\n'])
+            odoc = map_strings(doc,
+                               (lambda n_: n_[:len(n_) // 2] + brk + n_[len(n_) // 2:]) if po['newline_keys'] and rng.random() < 0.5
+                               else (lambda n_: n_),
+                               (lambda v_: v_) if po['newline_values'] else (lambda v_: v_.replace('\n', ' ').replace('\r', ' ')))
+            so = rng.choice(OPTS_WS)
+            ck.count('search_option_roundtrips')
+            ck.hist('search_parse_options', '+'.join(k for k, v in po.items() if v) or 'none')
+            d = options_fails(odoc, po, so)
+            if d and may_shrink('roundtrip-options', odoc):
+                small = shrink_doc(odoc, lambda dd: bool(options_fails(dd, po, so)))
+                cls = options_fails(small, po, so)
+                report('roundtrip-options:' + fail_key('x', small, cls)[2:],
+                       f'parse(serialise(t), {po}) is not the tree ({cls})', small, so, {'parse_options': po})
             # the deprecated writer
             ck.count('search_exports')
             d = roundtrip_fails(doc, {}, 'export')
@@ -729,17 +1086,33 @@ def run(ck: Ck) -> None:
                'subtrees, empty strings/blocks; non-trivial = at least one string contains a character that the format '
                'treats specially; distinct by full tree (+ options for serialise cases). parse texts: serialisations, 1-4 '
                'character mutations of them, a hand-written corpus (flags, comments, CR/LF forms, same-line braces, every '
-               'error path) and token soup; non-trivial = at least 4 characters; distinct by text.')
-    ck.trusted.append('hand-written models KV/KvLex.v (Tokenizer as configured by Keyvalues.parse) and KV/KvParse.v '
-                      '(token loop), tied by differential correspondence on every run')
+               'error path) and token soup, each under the default or a random vector of the four parse options; '
+               'non-trivial = at least 4 characters; distinct by (text, options). chunk lists: the same texts cut per '
+               'character, at random positions, with empty chunks, after every backslash/quote/newline; non-trivial = at '
+               'least two chunks. token strings: ALL strings up to length 4 (thorough 5) over {STR a, STR b, STR with a '
+               'line break, NEWLINE, {, }, enabled flag, disabled flag, EQUALS} x 16 option vectors x {EOF, tokenizer '
+               'error}: counted as evaluations, not as distinct non-trivial cases.')
+    ck.trusted.append('hand-written model KV/KvParse.v (token loop of Keyvalues.parse with its options), tied on every run by '
+                      'the exhaustive token-level correspondence and the sampled text-level correspondences')
+    ck.trusted.append('Text/Tokenizer.v (reader-program model of Tokenizer, owned and tied by C03); KV/KvLex.v is proved equal '
+                      'to it (kv_lexer_refines_tokenizer) for the regenerated tables')
+    ck.trusted.append('translate/c02_tables.py (regenerates Gen/EscTables_gen.v, the tables of the C03 tokenizer model)')
     ck.assumptions += [
         'trees are finite, acyclic, values are str, only the root is nameless (Keyvalues.root / parse result)',
-        'names contain no CR/LF (excluded by the property); indent and start_indent consist of spaces and tabs',
-        'parse is called with its default options; chunked delivery is searched, not modelled (see C03)',
+        'names contain no CR/LF unless parse is called with newline_keys=True; values contain none when '
+        'newline_values=False; indent and start_indent consist of spaces and tabs',
+        'allow_escapes=True; _read_flag enters the theorems as an arbitrary predicate',
     ]
+    stage: dict = {}
+    ck.extra['stage_wall_seconds'] = stage       # informative only: never influences a result
+    t_stage = time.time()
     ok_t = ck.translate('KVSer_gen', c01_kvser.translate)
     side = ck.extra.get('translated', {}).get('KVSer_gen', {})
-    built = ok_t and ck.build(['Gen/KVSer_gen.vo', 'Props/C01.vo'])   # Props is generic over Gen: name Gen explicitly
+    # the constant tables of the C03 tokenizer model (Text/TokGen.v over Gen/EscTables_gen.v, C02's translator): the
+    # refinement theorem kv_lexer_refines_tokenizer is instantiated for them
+    ok_t = ck.translate('EscTables_gen', c02_tables.translate) and ok_t
+    # KV/KvEnum.vo is used by the correspondences only (no theorem depends on it): name it explicitly
+    built = ok_t and ck.build(['Gen/KVSer_gen.vo', 'Gen/EscTables_gen.vo', 'Text/TokGen.vo', 'KV/KvEnum.vo', 'Props/C01.vo'])
     if built:
         ck.theorems('Props/C01.v')
         noraw = '(fun t => forallb (fun p => match p with PRaw _ | POther => false | _ => true end) t)'
@@ -757,31 +1130,67 @@ def run(ck: Ck) -> None:
             'leaf_lexes_to_name_value_NL(indent_braces=False)': 'leaf_ok gen_sercfg false',
             'child_indent_is_whitespace': 'child_indent_ok gen_sercfg',
             'root_child_indent_is_whitespace': 'root_indent_ok gen_sercfg',
-            'cfg_ok_and_esc_ok(premises of kv_roundtrip)': 'cfg_ok gen_sercfg && esc_ok gen_escfg',
+            'root_test_of_serialise_is_identity_with_None': 'root_test_ok gen_sercfg',
+            'parse_newline_key_test_rejects_only_LF_CR': 'key_break_ok gen_parsecfg',
+            'parse_newline_value_test_rejects_only_LF_CR': 'value_break_ok gen_parsecfg',
+            'cfg_ok_and_esc_ok_and_pcfg_ok(premises of kv_roundtrip)':
+                'cfg_ok gen_sercfg && esc_ok gen_escfg && pcfg_ok gen_parsecfg',
             'export_yields_have_no_raw_field': f'forallb {noraw} gen_export_yields',
+            'export_block_head_lexes_to_name_NL_brace_NL': 'xhead_ok gen_expcfg',
+            'export_block_tail_lexes_to_brace_NL': 'xtail_ok gen_expcfg',
+            'export_leaf_lexes_to_name_value_NL': 'xleaf_ok gen_expcfg',
+            'export_child_prefix_is_whitespace': 'xprefix_ok gen_expcfg',
+            'root_test_of_export_is_identity_with_None': 'xroot_test_ok gen_expcfg',
+            'xcfg_ok(premise of kv_export_roundtrip)': 'xcfg_ok gen_expcfg',
             'no_store_to_tree_in_writers': 'Nat.eqb (length gen_tree_stores) 0',
             'no_mutating_call_on_tree_in_writers': 'Nat.eqb (length gen_tree_mut_calls) 0',
         })
+        inst.update(ck.instance_obligations(IMPORTS_REFINE, {
+            'tokenizer_model_escape_table_equals_kv_lexer_table': 'esc_tables_match gen_tables gen_escfg',
+            'tokenizer_model_BARE_DISALLOWED_equals_kv_lexer_set': 'bare_tables_match gen_tables',
+            'tokenizer_model_operators_are_brace_open_close_equals_comma': 'ops_match (Str.operators gen_tables)',
+            'tables_match(premise of parse_any_delivery)': 'tables_match gen_tables gen_escfg',
+        }, name='inst_refine'))
         if not all(inst.values()):
             ck.tie_broken.append('instance obligations over Gen/KVSer_gen.v: ' + ', '.join(k for k, v in inst.items() if not v))
+        stage['build+theorems+instances'] = round(time.time() - t_stage, 1)
+        t_stage = time.time()
         tie_tables(ck, side)
-        corr_serialise(ck)
-        corr_parse(ck)
+        # the correspondences: cases are generated sequentially (ck.rng), the model is evaluated on all chunks in
+        # parallel coqc processes, results are consumed in order
+        pending = [corr_serialise(ck), corr_parse(ck)]
+        results = eval_jobs(ck, [j for jobs, _ in pending for j in jobs])
+        at = 0
+        for jobs, fin in pending:
+            fin(results[at:at + len(jobs)])
+            at += len(jobs)
+        stage['tables+correspondences'] = round(time.time() - t_stage, 1)
+        t_stage = time.time()
+        corr_tokens(ck)
+        stage['token-exhaustive'] = round(time.time() - t_stage, 1)
+        t_stage = time.time()
+        corr_chunked(ck)
+        stage['chunked'] = round(time.time() - t_stage, 1)
+    t_stage = time.time()
     search(ck)
+    stage['search'] = round(time.time() - t_stage, 1)
     keys = {v['key'] for v in ck.violations}
     # A failed obligation is explained by a concrete failing input on the same path:
-    #  - a round-trip failure through serialise() explains the serialise-side template / escape-table obligations;
+    #  - a round-trip failure through serialise() (default or other parse options) or an indentation-dependence of the
+    #    tokens / non-blank text explains the serialise-side template / escape-table / root-test / newline-test obligations;
     #  - an export() round-trip failure explains the export census obligation;
     #  - an observed mutation explains the store / mutating-call census.
     # A translator that failed closed and a correspondence disagreement are never explained away: they mean the
     # model no longer describes the source, whatever else was found.
-    if any(k.startswith(('roundtrip:', 'roundtrip-named-node:')) for k in keys):
+    if any(k.startswith(('roundtrip:', 'roundtrip-named-node:', 'roundtrip-options:', 'indent-changes-')) for k in keys):
         for pre in ('instance:block_head_lexes', 'instance:block_tail_lexes', 'instance:leaf_lexes',
                     'instance:child_indent', 'instance:root_child_indent', 'instance:cfg_ok_and_esc_ok',
-                    'instance:escape_table', 'instance:every_escape_written'):
+                    'instance:escape_table', 'instance:every_escape_written', 'instance:root_test_of_serialise',
+                    'instance:parse_newline_key_test', 'instance:parse_newline_value_test'):
             ck.explain(pre)
     if any(k.startswith('export-roundtrip') for k in keys):
-        ck.explain('instance:export_yields_have_no_raw_field')
+        for pre in ('instance:export_', 'instance:root_test_of_export', 'instance:xcfg_ok'):
+            ck.explain(pre)
     if 'serialise-mutates-tree' in keys or 'export-mutates-tree' in keys:
         ck.explain('instance:no_store_to_tree')
         ck.explain('instance:no_mutating_call')
@@ -809,9 +1218,11 @@ def replay(data: dict) -> int:
     print('tree      :', doc)
     print('options   :', opts)
     print('text      :', repr(text))
-    got = impl_parse(text)
+    po = extra.get('parse_options')
+    got = impl_parse(text, None, po)
+    print('parse opts:', po or 'defaults')
     print('parse     :', got)
-    print('round trip:', 'OK' if got == ('ok', doc) else 'DIFFERS')
+    print('round trip:', 'OK' if got == (options_expected(doc, po) if po else ('ok', doc)) else 'DIFFERS')
     if 'chunks' in extra and isinstance(extra['chunks'], list):
         print('chunked   :', impl_parse(extra['chunks']))
     return 0
